@@ -126,6 +126,16 @@ Proof. intro H. apply upd_oa_spec in H. destruct H as (r & -> & _). simpl. auto.
 Lemma upd_dg_frame s k a b s' z : upd_dg s k a b = Some (s', z) -> ur s' = ur s /\ pidx s' = pidx s /\ height s' = height s /\ hold s' = hold s /\ sidx s' = sidx s.
 Proof. intro H. apply upd_dg_spec in H. destruct H as (r & -> & _). simpl. auto. Qed.
 
+Lemma same_frame5 s s' : same_but_sa_bank_log s s' ->
+  ur s' = ur s /\ pidx s' = pidx s /\ height s' = height s /\ hold s' = hold s /\ sidx s' = sidx s.
+Proof. intros (A & B & C & D & E & _). auto. Qed.
+Lemma take_frame s st a x s' : take_from_staker s st a x = Some s' -> ur s' = ur s /\ pidx s' = pidx s /\ height s' = height s /\ hold s' = hold s /\ sidx s' = sidx s.
+Proof. intro H. apply same_frame5. eapply take_same; eauto. Qed.
+Lemma book_frame s st a x s' : book_pending s st a x = Some s' -> ur s' = ur s /\ pidx s' = pidx s /\ height s' = height s /\ hold s' = hold s /\ sidx s' = sidx s.
+Proof. intro H. apply same_frame5. eapply book_same; eauto. Qed.
+Lemma pay_frame s r s' : pay_staker s r = Some s' -> ur s' = ur s /\ pidx s' = pidx s /\ height s' = height s /\ hold s' = hold s /\ sidx s' = sidx s.
+Proof. intro H. apply same_frame5. eapply pay_same; eauto. Qed.
+
 Lemma rec_wf_requeue r h : rec_wf r = true -> 0 <= h ->
   rec_wf (mkUR (ur_staker r) (ur_asset r) (ur_op r) (ur_tx r) (ur_bn r) (h + 1) (ur_nonce r) (ur_amt r) (ur_act r)) = true.
 Proof.
@@ -153,10 +163,10 @@ Proof.
       apply del_record_other; assumption.
     + apply set_record_height in E. rewrite E. reflexivity.
   - destruct (upd_dg s _ 0 (- ur_amt r)) as [[s1 z]|] eqn:E1; [|auto].
-    destruct (upd_sa s1 _ 0 (ur_act r) (- ur_amt r)) as [s2|] eqn:E2; [|auto].
+    destruct (pay_staker s1 r) as [s2|] eqn:E2; [|auto].
     destruct (upd_oa s2 _ 0 (- ur_amt r) 0 0) as [s3|] eqn:E3; [|auto].
     apply upd_dg_frame in E1. destruct E1 as (U1 & P1 & H1 & _).
-    apply upd_sa_frame in E2. destruct E2 as (U2 & P2 & H2 & _).
+    apply pay_frame in E2. destruct E2 as (U2 & P2 & H2 & _).
     apply upd_oa_frame in E3. destruct E3 as (U3 & P3 & H3 & _).
     assert (idx_inv s3) as I3 by (eapply (idx_inv_ext s s3); try congruence).
     assert (ur s3 = ur s) as U by congruence.
@@ -270,7 +280,7 @@ Definition wf_op (o : op) : bool :=
   | Deposit st _ _ | Withdraw st _ _ => no_slash st
   | Delegate st _ op _ => no_slash st && no_slash op
   | Undelegate st _ op _ n _ => no_slash st && no_slash op && (0 <=? n)
-  | GenesisLoad r => rec_wf r
+  | GenesisLoad r => rec_wf r && negb (is_native (ur_asset r))   (* genesis loading is driven for the staker-row assets only *)
   | NstBalance _ _ _ => false   (* UpdateNSTBalance is modelled and correspondence-checked, but outside the theorems *)
   | _ => true
   end.
@@ -322,17 +332,25 @@ Proof.
   - inversion H; subst; clear H. unfold idx_inv. simpl. repeat split; assumption.
 Qed.
 
+Lemma deposit_frame_lst s st a x s' : deposit_lst s st a x = Some s' -> ur s' = ur s /\ pidx s' = pidx s /\ height s' = height s.
+Proof.
+  unfold deposit_lst. intro H. dmatch H. inversion H; subst; clear H.
+  apply upd_sa_spec in Heqo0. destruct Heqo0 as (r' & -> & _).
+  apply upd_tot_spec in Heqo1. destruct Heqo1 as (t & t' & _ & _ & _ & ->). simpl. auto.
+Qed.
 Lemma deposit_frame s st a x s' : deposit s st a x = Some s' -> ur s' = ur s /\ pidx s' = pidx s /\ height s' = height s.
 Proof.
-  unfold deposit. intro H. dmatch H. inversion H; subst; clear H.
+  intro H. apply deposit_shape in H. destruct H as [(_ & ->)|(_ & H)]; [auto|]. eapply deposit_frame_lst; eauto.
+Qed.
+Lemma withdraw_frame_lst s st a x s' : withdraw_lst s st a x = Some s' -> ur s' = ur s /\ pidx s' = pidx s /\ height s' = height s.
+Proof.
+  unfold withdraw_lst. intro H. dmatch H. inversion H; subst; clear H.
   apply upd_sa_spec in Heqo0. destruct Heqo0 as (r' & -> & _).
   apply upd_tot_spec in Heqo1. destruct Heqo1 as (t & t' & _ & _ & _ & ->). simpl. auto.
 Qed.
 Lemma withdraw_frame s st a x s' : withdraw s st a x = Some s' -> ur s' = ur s /\ pidx s' = pidx s /\ height s' = height s.
 Proof.
-  unfold withdraw. intro H. dmatch H. inversion H; subst; clear H.
-  apply upd_sa_spec in Heqo0. destruct Heqo0 as (r' & -> & _).
-  apply upd_tot_spec in Heqo1. destruct Heqo1 as (t & t' & _ & _ & _ & ->). simpl. auto.
+  intro H. apply withdraw_shape in H. destruct H as [(_ & ->)|(_ & H)]; [auto|]. eapply withdraw_frame_lst; eauto.
 Qed.
 
 Lemma append_staker_frame s k x :
@@ -343,15 +361,13 @@ Lemma delegate_frame s st a op x s' : delegate s st a op x = Some s' -> ur s' = 
 Proof.
   unfold delegate. intro H.
   destruct (x <=? 0); [discriminate|]. destruct (negb (mem op (operators s))); [discriminate|].
-  destruct (sget (sa s) (sa_key st a)) as [info|]; [|discriminate].
-  destruct (sa_wd info <? x); [discriminate|].
-  destruct (upd_sa s (sa_key st a) 0 (- x) 0) as [s1|] eqn:E1; [|discriminate].
+  destruct (take_from_staker s st a x) as [s1|] eqn:E1; [|discriminate].
   match type of H with match ?e with _ => _ end = _ => destruct e as [sh|]; [|discriminate] end.
   destruct (upd_oa s1 (oa_key op a) x 0 sh 0) as [s2|] eqn:E2; [|discriminate].
   destruct (upd_dg s2 (dg_key st a op) sh 0) as [[s3 z]|] eqn:E3; [|discriminate].
   inversion H; subst; clear H.
   destruct (append_staker_frame s3 (oa_key op a) st) as (-> & -> & ->).
-  apply upd_sa_frame in E1. apply upd_oa_frame in E2. apply upd_dg_frame in E3.
+  apply take_frame in E1. apply upd_oa_frame in E2. apply upd_dg_frame in E3.
   destruct E1 as (? & ? & ? & _), E2 as (? & ? & ? & _), E3 as (? & ? & ? & _). repeat split; congruence.
 Qed.
 
@@ -374,18 +390,18 @@ Proof.
   destruct (sget (dg s) (dg_key st a op)) as [d|]; [|discriminate].
   destruct (sget (oa s) (oa_key op a)) as [o|] eqn:Eo; [|discriminate].
   destruct (shares_from_tokens (oa_tsh o) x (oa_amt o)) as [sh0|]; [|discriminate].
-  destruct (sh0 >? dg_sh d); [discriminate|].
+  match type of H with (if ?c then _ else _) = _ => destruct c; [discriminate|] end.
   destruct (shares_from_tokens (oa_tsh o) 1 (oa_amt o)) as [tol|]; [|discriminate].
-  set (sh := if dg_sh d - sh0 <? tol then dg_sh d else sh0) in *.
+  set (sh := if sh0 >? dg_sh d then dg_sh d else if dg_sh d - sh0 <? tol then dg_sh d else sh0) in *.
   destruct (sh <=? 0); [discriminate|]. destruct (sh >? oa_tsh o); [discriminate|].
   match type of H with match ?e with _ => _ end = _ => destruct e as [tok|]; [|discriminate] end.
   destruct (upd_oa s (oa_key op a) (- tok) tok (- sh) 0) as [s1|] eqn:E1; [|discriminate].
-  destruct (upd_sa s1 (sa_key st a) 0 0 tok) as [s2|] eqn:E2; [|discriminate].
+  destruct (book_pending s1 st a tok) as [s2|] eqn:E2; [|discriminate].
   destruct (upd_dg s2 (dg_key st a op) (- sh) tok) as [[s3 z]|] eqn:E3; [|discriminate].
   match type of H with match ?e with _ => _ end = _ => destruct e as [s4|] eqn:E4; [|discriminate] end.
   match type of H with match set_record s4 ?rr with _ => _ end = _ => set (r0 := rr) in *;
     destruct (set_record s4 r0) as [s5|] eqn:E5; [|discriminate] end.
-  apply upd_oa_frame in E1. apply upd_sa_frame in E2. apply upd_dg_frame in E3.
+  apply upd_oa_frame in E1. apply book_frame in E2. apply upd_dg_frame in E3.
   destruct E1 as (? & ? & ? & _), E2 as (? & ? & ? & _), E3 as (? & ? & ? & _).
   assert (ur s4 = ur s3 /\ pidx s4 = pidx s3 /\ height s4 = height s3) as (? & ? & ?).
   { destruct z; [eapply delete_staker_frame; eauto | inversion E4; subst; auto]. }
@@ -441,7 +457,7 @@ Proof.
     apply delegate_frame in E. destruct E as (? & ? & ?). eapply (idx_inv_ext s s'); eauto.
   - destruct (undelegate s staker asset operator x nonce tx) as [[s' r]|] eqn:E; simpl; [|exact I].
     eapply undelegate_idx; eauto.
-  - apply genesis_load_idx; assumption.
+  - simpl in Wf. apply andb_prop in Wf. destruct Wf as [Wr _]. apply genesis_load_idx; assumption.
   - destruct prop as [p|]; simpl; [|exact I].
     destruct (slash s operator eh p) as [s'|] eqn:E; simpl; [|exact I]. eapply slash_idx; eauto.
   - pose proof (hold_inc_frame s rk) as (? & ? & ?). eapply (idx_inv_ext s); eauto.
